@@ -651,7 +651,7 @@ def main():
             for r in recs:
                 if r['verdict'] == 'inconclusive': log('INCONCLUSIVE: property=%s obligation=%s %s' % (pid, r['obligation'], r.get('why', '')[:1500]))
             rcode = 2
-        write_evidence(pid, P, tier, seed, recs, time.time() - t0, rcode)
+        write_evidence(pid, P, tier if not only else 'partial', seed, recs, time.time() - t0, rcode)
         sys.exit(rcode)
     finally:
         if not keep: shutil.rmtree(scratch, ignore_errors=True)
@@ -695,7 +695,7 @@ def write_evidence(pid, P, tier, seed, recs, wall, rcode):
     # runs against another tree (VERIF_REPO=<scratch worktree>, used to try seeded changes) must not
     # overwrite the evidence of /repo
     evdir = os.path.join(ROOT, 'evidence') if REPO == '/repo' else '/var/tmp/verif_other_tree/evidence'
-    if tier not in ('quick', 'thorough'):   # parked obligations are development runs: never the committed evidence
+    if tier not in ('quick', 'thorough'):   # parked obligations and --only selections are development runs: never the committed evidence
         evdir = '/var/tmp/verif_experimental/evidence'
     os.makedirs(evdir, exist_ok=True)
     json.dump(ev, open(os.path.join(evdir, pid + '.json'), 'w'), indent=1, default=str)
